@@ -127,6 +127,8 @@ struct Elem {
     Props props;
     std::vector<std::pair<long double, long double>> raw;    // polygon vertices in grid units, unrounded
     std::string forward_cycle;                               // polygon: canonical cycle keeping the direction
+    std::vector<eg::P> gridpts;                              // polygon: vertices on the grid, in list order
+    bool region_only = false;                                // polygon expected as the outline of a path: compare without collinear vertices
     JFields tags;                                            // description (used as violation tags)
     const std::string& get(const std::string& k) const {
         static std::string none;
@@ -154,6 +156,7 @@ struct Model {
     std::map<std::string, CellM> cells;
     std::vector<std::string> problems;   // the library is outside what the model can represent
     bool dangling = false;               // some reference names a cell that is not in the library
+    int skipped_nonsimple = 0;           // lenient walk: non-simple paths left out (their expectation comes from the corpus)
 };
 
 inline std::string tag_str(Tag t) { return fmt("%u/%u", get_layer(t), get_type(t)); }
@@ -232,8 +235,24 @@ inline std::string ends_str(EndType t, Vec2 ext, int64_t hw, double scaling, boo
     return "ext(" + istr(a) + "," + istr(b) + ")";
 }
 
+// closed cycle without repeated and collinear vertices (region outline)
+inline std::vector<eg::P> simplify_cycle(std::vector<eg::P> p) {
+    bool changed = true;
+    while (changed && p.size() > 3) {
+        changed = false;
+        size_t n = p.size();
+        for (size_t i = 0; i < n; i++) {
+            eg::P a = p[(i + n - 1) % n], b = p[i], c = p[(i + 1) % n];
+            if (a.x == BAD || b.x == BAD || c.x == BAD) continue;
+            if (b == c || (eg::cross(a, b, c) == 0 && eg::dot(b, a, c) <= 0)) { p.erase(p.begin() + i); changed = true; break; }
+        }
+    }
+    return p;
+}
+
 struct Walker {
     const Library& lib;
+    bool lenient = false;  // members with a corpus expectation: non-simple paths are skipped instead of being a problem
     double scaling;
     Model m;
     std::set<std::string> names;
@@ -260,6 +279,7 @@ struct Walker {
         }
         e.f.push_back({"points", canon_cycle(g, true)});
         e.forward_cycle = canon_cycle(g, false);
+        e.gridpts = g;
         e.tags.push_back({"element", jstr("polygon")});
         add_rep(e, p.repetition);
         e.props = walk_props(p.properties);
@@ -281,7 +301,7 @@ struct Walker {
         c.elems.push_back(e);
     }
     void flexpath(CellM& c, const FlexPath& fp) {
-        if (!fp.simple_path) { m.problems.push_back("non-simple flexpath"); return; }
+        if (!fp.simple_path) { if (lenient) m.skipped_nonsimple++; else m.problems.push_back("non-simple flexpath"); return; }
         const Array<Vec2>& sp = fp.spine.point_array;
         for (uint64_t ne = 0; ne < fp.num_elements; ne++) {
             const FlexPathElement& el = fp.elements[ne];
@@ -307,15 +327,16 @@ struct Walker {
         }
     }
     void robustpath(CellM& c, const RobustPath& rp) {
-        if (!rp.simple_path) { m.problems.push_back("non-simple robustpath"); return; }
-        static const double ident[6] = {1, 0, 0, 0, 1, 0};
-        for (int i = 0; i < 6; i++) if (rp.trafo[i] != ident[i]) m.problems.push_back("robustpath with a transformation");
+        if (!rp.simple_path) { if (lenient) m.skipped_nonsimple++; else m.problems.push_back("non-simple robustpath"); return; }
+        // section end points are stored untransformed; the path's 2x3 matrix maps them to their place
+        const double* t = rp.trafo;
+        auto place = [&](Vec2 p) { return eg::P{grid((p.x * t[0] + p.y * t[1] + t[2]) * scaling), grid((p.x * t[3] + p.y * t[4] + t[5]) * scaling)}; };
         std::vector<eg::P> centre;
         for (uint64_t i = 0; i < rp.subpath_array.count; i++) {
             const SubPath& s = rp.subpath_array[i];
             if (s.type != SubPathType::Segment) { m.problems.push_back("robustpath with curved sections"); continue; }
-            if (i == 0) centre.push_back({grid(s.begin.x * scaling), grid(s.begin.y * scaling)});
-            centre.push_back({grid(s.end.x * scaling), grid(s.end.y * scaling)});
+            if (i == 0) centre.push_back(place(s.begin));
+            centre.push_back(place(s.end));
         }
         for (uint64_t ne = 0; ne < rp.num_elements; ne++) {
             const RobustPathElement& el = rp.elements[ne];
@@ -393,7 +414,59 @@ struct Walker {
         return m;
     }
 };
-inline Model walk(const Library& lib) { return Walker(lib).run(); }
+inline Model walk(const Library& lib, bool lenient = false) {
+    Walker w(lib);
+    w.lenient = lenient;
+    return w.run();
+}
+// Model of a one-cell library from plain expectation data (tag, centre line / outline in user units, half
+// width, end style) — same canonical forms as the walk.  E is oas_corpus::Expected (kept generic here).
+template <class E>
+inline Model model_from_expected(const E& ex, const Library& lib, const char* cell_name) {
+    Model m;
+    double scaling = lib.unit / lib.precision;
+    m.precision = lib.precision;
+    CellM c;
+    c.name = cell_name;
+    Repetition none = {};
+    for (auto& p : ex.paths) {
+        Elem e;
+        e.kind = "path";
+        std::vector<eg::P> centre;
+        for (auto& v : p.centre) centre.push_back({grid(v.x * scaling), grid(v.y * scaling)});
+        int64_t hw = grid(p.half_width * scaling);
+        e.f.push_back({"tag", tag_str(p.tag)});
+        e.f.push_back({"centre_line", pts_str(simplify_polyline(centre))});
+        e.f.push_back({"half_width", istr(hw)});
+        bool ok;
+        e.f.push_back({"ends", ends_str(p.end == 0 ? EndType::Flush : p.end == 1 ? EndType::HalfWidth : EndType::Extended, p.ext, hw, scaling, ok)});
+        bool many;
+        e.f.push_back({"repetition", rep_str(none, scaling, many)});
+        e.tags.push_back({"element", jstr("path_with_history")});
+        e.tags.push_back({"rep_kind", jstr("none")});
+        e.tags.push_back({"rep_negative", jbool(false)});
+        c.elems.push_back(e);
+    }
+    for (auto& p : ex.polys) {
+        Elem e;
+        e.kind = "polygon";
+        std::vector<eg::P> g;
+        for (auto& v : p.pts) { g.push_back({grid(v.x * scaling), grid(v.y * scaling)}); e.raw.push_back({(long double)v.x * scaling, (long double)v.y * scaling}); }
+        e.f.push_back({"tag", tag_str(p.tag)});
+        e.f.push_back({"points", canon_cycle(g, true)});
+        e.forward_cycle = canon_cycle(g, false);
+        e.gridpts = g;
+        e.region_only = true;
+        bool many;
+        e.f.push_back({"repetition", rep_str(none, scaling, many)});
+        e.tags.push_back({"element", jstr("outline_of_nonsimple_path")});
+        e.tags.push_back({"rep_kind", jstr("none")});
+        e.tags.push_back({"rep_negative", jbool(false)});
+        c.elems.push_back(e);
+    }
+    m.cells[c.name] = c;
+    return m;
+}
 
 // raw (un-rounded) dump of everything the writer must not change in the SOURCE library: geometry,
 // element properties, and the user (non S_*) properties of library and cells.  Uses dump.hpp only.
@@ -458,7 +531,7 @@ struct CompareCtx {
     uint16_t flags = 0;
     int cycle = 1;
     // statistics
-    int64_t circles_within_tolerance = 0, orientation_reversed = 0, elements_compared = 0;
+    int64_t circles_within_tolerance = 0, orientation_reversed = 0, elements_compared = 0, outlines_equal_modulo_collinear = 0;
     long double worst_circle_deviation = 0;
 };
 inline std::string detect_bits(const CompareCtx& c) {
@@ -493,6 +566,10 @@ inline void compare_pair(std::vector<Diff>& out, const std::string& cell, const 
         std::string el = a.tag("element");
         if (el.size() >= 2) el = el.substr(1, el.size() - 2);
         if (field == "points") {
+            if (a.region_only && canon_cycle(simplify_cycle(a.gridpts), true) == canon_cycle(simplify_cycle(b.gridpts), true)) {
+                ctx.outlines_equal_modulo_collinear++;
+                continue;
+            }
             if (ctx.cycle == 1 && ctx.circle_tolerance_grid > 0 && a.raw.size() > 4 && b.raw.size() > 4) {
                 // circle criterion: vertex-to-boundary distance both ways within
                 // 2*circle_tolerance (radial + chord error of the source) + reader tolerance + rounding (1.5 grid steps)
